@@ -7,9 +7,8 @@
 (*     a feasible point accepted by the relation minimises the dual        *)
 (*     objective among all feasible grid points   (convex QP: KKT => opt). *)
 (* A relation with a reversed inequality or a wrong sign accepts           *)
-(* non-optimal candidates and is caught here.  NoKkt is run separately and *)
-(* must be *violated* (some candidate is accepted: the relation is not     *)
-(* vacuous).                                                               *)
+(* non-optimal candidates and is caught here.  Every accepted candidate is *)
+(* printed; the orchestrator requires at least one (not vacuous).          *)
 (***************************************************************************)
 EXTENDS SmoKkt, TLC
 
@@ -78,14 +77,17 @@ Accepted ==
     [] Mode = "oneclass" -> OneclassWhy(In, A6, Rho6) = "none"
     [] Mode = "esvr" -> EsvrWhy(In, A6, Rho6) = "none"
 
-KktImpliesOptimal ==
-  Accepted =>
-    CASE Mode = "csvc" ->
-           \A al \in [1..Len(st.al) -> 0..st.cg] : CsvcFeasible(st.y, al, st.cg) => CsvcObj(st, st.al) <= CsvcObj(st, al)
-      [] Mode = "oneclass" ->
-           \A al \in [1..Len(st.al) -> 0..G] : OcFeasible(al) => OcObj(st, st.al) <= OcObj(st, al)
-      [] Mode = "esvr" ->
-           \A b \in [1..Len(st.al) -> (-st.cg)..st.cg] : SvrFeasible(b, st.cg) => SvrObj(st, st.al) <= SvrObj(st, b)
+OptimalOnGrid ==
+  CASE Mode = "csvc" ->
+         \A al \in [1..Len(st.al) -> 0..st.cg] : CsvcFeasible(st.y, al, st.cg) => CsvcObj(st, st.al) <= CsvcObj(st, al)
+    [] Mode = "oneclass" ->
+         \A al \in [1..Len(st.al) -> 0..G] : OcFeasible(al) => OcObj(st, st.al) <= OcObj(st, al)
+    [] Mode = "esvr" ->
+         \A b \in [1..Len(st.al) -> (-st.cg)..st.cg] : SvrFeasible(b, st.cg) => SvrObj(st, st.al) <= SvrObj(st, b)
+
+\* (prints one line per accepted candidate: the orchestrator requires at least one, so that the
+\* implication is not vacuous)
+KktImpliesOptimal == Accepted => (PrintT("KKT-ACCEPTED") /\ OptimalOnGrid)
 
 NoKkt == ~Accepted
 =============================================================================
